@@ -28,8 +28,10 @@
                 get_module_names + search_in_module, phase 3 sys.path module names),
                 _try_to_skip_duplicates.  Deviations of the code are modelled as they are
                 and named DEV-n.
-   TLC checks Design |= Reference modulo the named known shapes (and the strict invariants
-   give the counterexamples that the harness replays on real files).                     *)
+   TLC checks Design |= Reference (DesignMeetsReference when every deviation is repaired,
+   otherwise modulo the named open shapes); the strict invariants hold for repaired deviations
+   and fail on the what-if Design with the old behaviour (Fixed without that DEV); those
+   counterexample trees are replayed on real files.                                        *)
 EXTENDS Naturals, Sequences, FiniteSets, TLC, Json
 
 CONSTANTS Pool,        \* "quick" | "thorough" | "limits": which bounded pools are used
@@ -38,7 +40,8 @@ CONSTANTS Pool,        \* "quick" | "thorough" | "limits": which bounded pools a
           OpenLimit,   \* _OPENED_FILE_LIMIT (2000 in the code)
           EmitMod, EmitRem,
           Fixed        \* subset of {"DEV1", "DEV2", "DEV4"}: deviations that are repaired in the code
-                       \* (the Design then follows the patch proposed for that finding); {} today
+                       \* (the Design then follows the fix); all three since 1c2063e / 1b4ae41 / 7bc3039,
+                       \* smaller sets are the what-if Designs with the old behaviour
 
 ---------------------------------------------------------------------------
 (* Text *)
